@@ -2055,6 +2055,12 @@ class Interp:
                     return getattr(base, m)(*args)
                 except (TypeError, ValueError) as exc:
                     raise RaiseSig(type(exc).__name__, (str(exc),), e)
+        if isinstance(base, tuple) and len(base) == 2 and base[0] == 'class' and m == '_make' and len(args) == 1:
+            home = self.class_home(base[1])
+            if home is not None and self.class_kind(home[1]) == 'namedtuple':
+                obj = self.instantiate(base[1], list(self.iterate(args[0], e)), None, e)
+                if obj is not None:
+                    return obj
         self.bad(e, f'method call .{m}() on {type(base).__name__}')
 
     def host_regex(self, rx, node):
